@@ -149,6 +149,7 @@ def all_cols(canon):
 def gen_pattern(rng, names):
     """patterns over the names' alphabet: literals, %, _, mutations of real names"""
     r = rng.random()
+    names = [n for n in names if n]
     base = rng.choice(names) if names else "a"
     if r < 0.15:
         return base
